@@ -216,6 +216,11 @@ class Run:
         pos = int(actor[1:])
         oc, m = self.arrived[pos]
         head, rest = self.response_parts(pos)
+        if oc.c.closed:
+            # Squid gave up on this server connection before the origin answered
+            self.facts.add('origin-conn-closed-early')
+            self.ostage[pos] = 2
+            return
         if step.startswith('head'):
             oc.c.send(head)
             self.ostage[pos] = 2 if rest is None else 1
@@ -391,7 +396,12 @@ def run(ctx):
             if st['w'].get(pf) is None:
                 fresh(pf)
             st['n'] += 1
-            r = execute(st['w'][pf], case, choices, 's%02dn%06d' % (shard, st['n']))
+            try:
+                r = execute(st['w'][pf], case, choices, 's%02dn%06d' % (shard, st['n']))
+            except HarnessError:
+                if not st['w'][pf].sq.health_problems():
+                    raise
+                r = {'violation': None, 'transcript': [], 'states': [], 'transitions': 0, 'chooser': ex.Chooser(choices), 'facts': [], 'forwarded': ''}
             hp = st['w'][pf].sq.health_problems()
             if hp:
                 r['crash'] = hp
@@ -420,10 +430,12 @@ def run(ctx):
                     for f in r['facts']:
                         out['facts'][f] = out['facts'].get(f, 0) + 1
                     key = tuple(ch.choices())
-                    if case is mine[0] and key in first and first[key] != r['transcript']:
-                        raise HarnessError('nondeterminism: %s %r gave different transcripts on two instances:\n%r\n%r' % (cn, list(key), first[key], r['transcript']))
                     if r.get('crash'):
                         out['crashes'].append((cn, list(key), '; '.join(r['crash'])[:2000]))
+                        stop['v'] = True
+                        return True
+                    if case is mine[0] and key in first and first[key] != r['transcript']:
+                        raise HarnessError('nondeterminism: %s %r gave different transcripts on two instances:\n%r\n%r' % (cn, list(key), first[key], r['transcript']))
                     if len(out['samples']) < 2 and out['execs'] % 37 == 5:
                         out['samples'].append({'case': cn, 'choices': list(key), 'schedule': _taken(ch), 'transcript': r['transcript']})
                     if r['violation']:
@@ -434,6 +446,10 @@ def run(ctx):
                                     fresh(case['pf'])
                                 r2 = one(case, list(key))
                                 out['replays'] += 1
+                                if r2.get('crash'):
+                                    out['crashes'].append((cn, list(key), '; '.join(r2['crash'])[:2000]))
+                                    stop['v'] = True
+                                    return True
                                 if not r2['violation'] or r2['violation'][0] != k:
                                     raise HarnessError('violation not reproducible: %s %r: %s / replay gave %r' % (cn, list(key), what, r2['violation']))
                             out['violations'].append((k, '%s, schedule %s: %s' % (cn, ' '.join(_taken(ch)), what), {'case': case, 'choices': list(key)}))
@@ -444,6 +460,11 @@ def run(ctx):
                 res = ex.explore(lambda ch: _wrap(one, case, ch), on, t_end=t_end)
                 out['per_case'][cn] = res['executions']
                 out['bounds'][cn] = res['bound_completed']
+                if len(out['crashes']) >= 3 or len(out['violations']) >= 6:
+                    out['deadline'] = True
+                    break
+                if stop['v']:
+                    continue
                 if res['exhausted']:
                     out['cases_done'].append(cn)
                 else:
@@ -480,8 +501,14 @@ def run(ctx):
         done += p['cases_done']
     complete = len(done) == len(cases)
     violations = [Violation(k, what, rp) for k, (what, rp) in sorted(vio.items())]
+    seen = set()
     for name, choices, what in crashes:
-        violations.append(Violation('crash:' + name.split('/')[0], 'squid crashed/asserted during %s %r: %s' % (name, choices, what), {'case': None}))
+        mk = re.search(r'(assertion failed: [^\n"]{0,80})|(FATAL: [^\n"]{0,60})|AddressSanitizer: ([\w-]+)', what)
+        kind = (mk.group(1) or mk.group(2) or mk.group(3)) if mk else 'exit'
+        if kind in seen:
+            continue
+        seen.add(kind)
+        violations.append(Violation('crash:' + kind, 'squid crashed/asserted during %s %r: %s' % (name, choices, what), {'case': None}))
     if complete and not violations:
         need = {'hit-served-from-cache': 10, 'origin-finished-later-request-first': 10, 'forwarding-deferred': 10}
         miss = {f: facts.get(f, 0) for f, n in need.items() if facts.get(f, 0) < n}
@@ -506,7 +533,9 @@ def _wrap(one, case, ch):
     # the chooser is consumed inside execute() through its prefix; keep the points for the explorer
     r = one(case, ch.prefix)
     inner = r['chooser']
-    ch.points = inner.points
+    ch.points = list(inner.points)
+    while len(ch.points) < len(ch.prefix):     # execution died (Squid crashed) before the prefix was consumed
+        ch.points.append((ch.prefix[len(ch.points)] + 1, 'crashed', ch.prefix[len(ch.points)]))
     return r
 
 
